@@ -13,4 +13,7 @@ func init() {
 	setProp("C11", "DESIGN.md §4 C11",
 		"Decides: stop-typestate of search callbacks in rtree (no callback invocation reachable after a non-nil result; inner helpers propagate the error itself; the entry maps exactly errors.Is(err,Stop) to nil).",
 		"completeness and exactly-once visiting of the searches for every tree shape; ordering of PrioritySearch; floating-point min/max behaviour.")
+	setProp("C07", "DESIGN.md §4 C07",
+		"Decides: Point.coords is never read for a possibly-empty point; sub-writer output is always paired with a bounding-box merge; optional header bytes are emitted only where their metadata bit was set (never after an 'is empty' header), every metadata byte carries the ext-precision bit under hasExt; ID lists are emitted only for kinds the reader accepts and only under count == len(list); every geometry the parser returns is typed by the header's coordinates type.",
+		"numeric rounding to the requested grid, the varint arithmetic, and the value-level round trip.")
 }
